@@ -259,3 +259,39 @@ def sys_blowup(t0=0.0, tc=0.105):
     system.add(pm, Force(f, pm, name="singular"))
     system.assemble()
     return system
+
+
+def sys_free_spring_pair(net=True):
+    """Static problem without any support: two point masses joined by one spring, loaded by forces with a net resultant (no equilibrium exists for
+    t > 0; the tangent has rigid-body modes, so only the pseudo-inverse linear solvers make steps at all).  parts: none"""
+    from cardillo import System
+    from cardillo.discrete import PointMass
+    from cardillo.forces import Force
+    from cardillo.force_laws import Spring
+    from cardillo.interactions import TwoPointInteraction
+
+    R1 = np.array([0.3, -0.2, 0.7])
+    R2 = R1 + 0.9 * np.array([2.0, -1.0, np.sqrt(2.0)]) / np.sqrt(7.0)
+    F1 = np.array([0.8, np.sqrt(0.5), -0.3])
+    F2 = np.array([-0.1, 0.4, np.pi / 5]) if net else -F1
+    system = System()
+    pm1 = PointMass(1.0, q0=R1, name="pm1")
+    pm2 = PointMass(1.0, q0=R2, name="pm2")
+    spring = Spring(TwoPointInteraction(pm1, pm2), 37.0, compliance_form=False, name="spring")
+    system.add(pm1, pm2, spring, Force(lambda t: t * F1, pm1, name="f1"), Force(lambda t: t * F2, pm2, name="f2"))
+    system.assemble()
+    return system
+
+
+def sys_spinning_body(omega=(30.0, 30.0, 30.0), t0=0.0, theta=(0.7, 1.3, 2.1)):
+    """A free rigid body with unequal inertia and a fast generic spin: the implicit mid-point equation of the quaternion kinematics is not a
+    contraction for dt |omega| / 4 > 1.  parts: S"""
+    from cardillo import System
+    from cardillo.discrete import RigidBody
+
+    system = System(t0=t0)
+    P = np.array([0.9, 0.1, -0.3, 0.2]); P = P / np.linalg.norm(P)
+    rb = RigidBody(1.0, np.diag(np.asarray(theta, dtype=float)), q0=np.concatenate([[0.0, 0.0, 0.0], P]), u0=np.concatenate([[0.1, 0.0, 0.0], np.asarray(omega, dtype=float)]), name="top")
+    system.add(rb)
+    system.assemble()
+    return system
